@@ -120,13 +120,30 @@ def build_env(work, module):
 _build_cache = {}
 
 
+def module_lang(module):
+    m = re.search(r"^go\s+(\d+\.\d+)", open(os.path.join(REPO, module, "go.mod")).read(), re.M)
+    return "go" + m.group(1) if m else None
+
+
+def module_path(module):
+    m = re.search(r"^module\s+(\S+)", open(os.path.join(REPO, module, "go.mod")).read(), re.M)
+    return m.group(1)
+
+
 def build_test_binary(work, module, pkg, race=False):
     key = (module, pkg, race)
     if key in _build_cache:
         return _build_cache[key]
     overlay, modfile = build_env(work, module)
     out = os.path.join(work, "bin-%s-%s%s.test" % (module, pkg.strip("./").replace("/", "_"), "-race" if race else ""))
+    # rapid v1.3.0 declares go 1.23, which makes the go command raise the go directive of the (copied) go.mod; the
+    # module's own packages must nevertheless be compiled with the language version the repository declares
+    # (loop-variable semantics changed in go 1.22), so it is pinned per package pattern
+    lang = module_lang(module)
+    modpath = module_path(module)
     cmd = ["go", "test", "-c", "-vet=off", "-tags", "verif", "-overlay", overlay, "-modfile", modfile, "-o", out]
+    if lang:
+        cmd += ["-gcflags=%s/...=-lang=%s" % (modpath, lang)]
     if race:
         cmd.append("-race")
     cmd.append(pkg)
@@ -252,7 +269,7 @@ def run_fuzz_unit(work, pid, uidx, unit, tier):
     corpus = os.path.join(ext, "testdata", "fuzz", unit["fuzz"])
     before = set(os.listdir(corpus)) if os.path.isdir(corpus) else set()
     cache = os.path.join(work, "fuzzcache")
-    cmd = ["go", "test", "-vet=off", "-tags", "verif", "-overlay", overlay, "-modfile", modfile, "-run", "^$", "-fuzz", "^%s$" % unit["fuzz"],
+    cmd = ["go", "test", "-vet=off", "-tags", "verif", "-overlay", overlay, "-modfile", modfile, "-gcflags=%s/...=-lang=%s" % (module_path("node"), module_lang("node")), "-run", "^$", "-fuzz", "^%s$" % unit["fuzz"],
            "-fuzztime", tcfg.get("fuzztime", "60s"), "-test.fuzzcachedir", cache, "."]
     rc, out, dt, timed_out = run_proc(cmd, ext, goenv(), tcfg.get("timeout", 900))
     m = re.findall(r"execs: (\d+)", out)
